@@ -174,6 +174,21 @@ check("C05", "model_checking",
       "by general angles, general real matrices and toolbox3d's squeezes/pinches are not covered.",
       "TLA+ exact-semantics spec; TLC-generated chains replayed into the real code and judged by TLC", "DESIGN.md §5 C05")
 
+check("C14", "model_checking",
+      "Polygon.tla defines, in exact integer arithmetic, simple polygons, regions with holes (even-odd, winding numbers), "
+      "and a valid triangulation (input vertices only, every triangle inside the region, pairwise interior-disjoint, "
+      "doubled areas summing to the region's, documented orientation). TLC (PolygonGen) enumerates EVERY simple polygon "
+      "with <= 6 vertices on a 3x3 grid (thorough: <= 7, and every 4x4 / <= 6 polygon), colinear runs included, and "
+      "(RegionGen) every outer ring x holes x island region of a palette; the harness hands each polygon to "
+      "model2d.Triangulate (also at dyadic scales 2^-16 and 2^10) and model3d.TriangulateFace (three lattice planes, one "
+      "tilted) in every rotation and both orientations, and each region (rings oriented as documented) to "
+      "TriangulateMesh and ProfileMesh; TLC (PolygonJudge) evaluates the definition on every output, requires "
+      "termination without panic, and for extrusions a closed oriented manifold complex with 6V = 3 * doubled area * h.",
+      "Trusted: TLC; matching of output coordinates to input vertices (exact in 2-D, 1e-9 for TriangulateFace, which "
+      "rebuilds coordinates from a 2-D basis). Zero-area output triangles are accepted. ReadOFF polygons are covered by "
+      "the C15/C16 checks; non-lattice polygons only through the dyadic re-scalings.",
+      "TLC-enumerated inputs replayed into the real code; outputs judged by TLC against a TLA+ definition", "DESIGN.md §5 C14")
+
 _pending = "check not built yet in this session (planned, see DESIGN.md §10)"
 for pid in ["C01","C02","C03","C04","C05","C06","C07","C08","C10","C11","C12","C13","C14","C15","C16","C17","C18","C20"]:
     if pid not in CHECKS:
